@@ -183,11 +183,16 @@ theorem requestHeadersLoop_eq (lower : Str → Str) (ah : List Str) (l : List St
     simp only [Cors.requestHeadersLoop, ih, List.all_cons]
     cases Cors.isValidAccessControlRequestHeader lower (Str.trim ' ' a) ah <;> simp
 
-theorem doPreflight_tie' (X : ImpGen.Ext) (hitoa : X.strconv_Itoa = Cors.itoa) (E : ReEnv)
+/-- the container the methods are computed on is the filter's own (`c.Container`) when it has one, else the
+    package variable `DefaultContainer` -/
+def OnContainer (X : ImpGen.Ext) (c : ImpGen.GoCrossOriginResourceSharing) (k : ImpGen.GoContainer) : Prop :=
+  c.Container = some k ∨ (c.Container = none ∧ X.DefaultContainer = some k)
+
+theorem doPreflight_tie_gen (X : ImpGen.Ext) (hitoa : X.strconv_Itoa = Cors.itoa) (E : ReEnv)
     (mk : RouteDecl → Option ImpGen.GoPathExpression → ImpGen.GoRoute)
     (hmk : ∀ rt pe, (mk rt pe).Method = rt.method ∧ (mk rt pe).pathExpr = pe)
     (c : ImpGen.GoCrossOriginResourceSharing) (tbl : Config)
-    (hc : c.Container = some { webServices := tbl.services.map (fun ws => some (genWS E mk ws)) })
+    (hc : OnContainer X c { webServices := tbl.services.map (fun ws => some (genWS E mk ws)) })
     (hr : HttpRequest) (rq : Cors.CorsReq) (hreq : reqOf hr = rq) (resp : RespLog) :
     ImpGen.CrossOriginResourceSharing_doPreflightRequest X (some c) (some { Request := hr }) resp
       = (Cors.doPreflightRequest X.strings_ToLower E (cfgOf c) tbl rq).map
@@ -196,24 +201,43 @@ theorem doPreflight_tie' (X : ImpGen.Ext) (hitoa : X.strconv_Itoa = Cors.itoa) (
   have h3 : hr.header "Access-Control-Request-Headers".toList = rq.acrh := congrArg Cors.CorsReq.acrh hreq
   have h4 : hr.path = rq.path := congrArg Cors.CorsReq.path hreq
   obtain ⟨eh, ah, ad, adf, am, ma, ca, ct⟩ := c
-  dsimp only at hc
-  subst hc
   unfold ImpGen.CrossOriginResourceSharing_doPreflightRequest
-  simp only [Option.pure_def, deref, Option.bind_eq_bind, Option.bind_some, Option.isNone_some,
-    compute_allowed_methods E X mk hmk, isValidMethod_tie, isValidHeader_tie, all_loop,
-    setOptionsHeaders_tie X hitoa, T5.len_beq_zero, T5.len_pos_decide, h2, h3, h4, hreq]
-  unfold Cors.doPreflightRequest
-  simp only [requestHeadersLoop_eq]
-  simp only [cfgOf]
-  rw [show Cors.sComma = ",".toList from rfl, show Cors.hAllowMethods = "Access-Control-Allow-Methods".toList from rfl,
-    show Cors.hAllowHeaders = "Access-Control-Allow-Headers".toList from rfl]
-  by_cases hm : am = []
-  · simp only [hm, List.isEmpty_nil, if_true, Bool.false_eq_true, if_false, List.length_nil]
-    cases Cors.computeAllowedMethods E tbl.services rq.path with
-    | none => rfl
-    | some ams =>
-      simp only [Option.bind_some, Option.map_some]
-      by_cases hb1 : Cors.isValidAccessControlRequestMethod rq.acrm ams = true
+  -- whichever of the two containers is read, it is the table's
+  rcases hc with hc | ⟨hc, hdc⟩
+  case' inr => rw [hdc]
+  all_goals
+    dsimp only at hc
+    subst hc
+    simp only [Option.pure_def, deref, Option.bind_eq_bind, Option.bind_some, Option.isNone_some, Option.isNone_none,
+      Bool.false_eq_true, if_true, if_false,
+      compute_allowed_methods E X mk hmk, isValidMethod_tie, isValidHeader_tie, all_loop,
+      setOptionsHeaders_tie X hitoa, T5.len_beq_zero, T5.len_pos_decide, h2, h3, h4, hreq]
+    unfold Cors.doPreflightRequest
+    simp only [requestHeadersLoop_eq]
+    simp only [cfgOf]
+    rw [show Cors.sComma = ",".toList from rfl, show Cors.hAllowMethods = "Access-Control-Allow-Methods".toList from rfl,
+      show Cors.hAllowHeaders = "Access-Control-Allow-Headers".toList from rfl]
+    by_cases hm : am = []
+    · simp only [hm, List.isEmpty_nil, if_true, Bool.false_eq_true, if_false, List.length_nil]
+      cases Cors.computeAllowedMethods E tbl.services rq.path with
+      | none => rfl
+      | some ams =>
+        simp only [Option.bind_some, Option.map_some]
+        by_cases hb1 : Cors.isValidAccessControlRequestMethod rq.acrm ams = true
+        · simp only [hb1, Bool.not_true, Bool.false_eq_true, if_false]
+          by_cases hb0 : rq.acrh = []
+          · simp only [hb0, push, List.isEmpty_nil, Bool.not_true, Bool.false_eq_true, if_false, List.length_nil, gt_iff_lt, Nat.lt_irrefl, decide_false, Bool.false_and, Option.map_some, List.append_assoc, List.cons_append, List.nil_append]
+          · have h3 : rq.acrh.isEmpty = false := by simpa using hb0
+            have h4 : rq.acrh.length > 0 := List.length_pos_iff.mpr hb0
+            simp only [h3, h4, Bool.not_false, if_true, decide_true, Bool.true_and]
+            by_cases hb2 : ((Str.split ',' rq.acrh).all fun p =>
+              Cors.isValidAccessControlRequestHeader X.strings_ToLower (Str.trim ' ' p) ah) = true
+            all_goals simp only [hb2, push, Bool.not_true, Bool.false_eq_true, if_false, Option.map_some, List.append_assoc, List.cons_append, List.nil_append, List.append_nil, Bool.not_eq_true, Bool.not_false, if_true]
+        · simp only [hb1, Bool.not_false, if_true, Option.map_some, List.append_nil]
+    · have h1 : am.isEmpty = false := by simpa using hm
+      have h2 : ¬ am.length = 0 := by simpa using hm
+      simp only [h1, h2, Bool.false_eq_true, if_false, Option.map_some]
+      by_cases hb1 : Cors.isValidAccessControlRequestMethod rq.acrm am = true
       · simp only [hb1, Bool.not_true, Bool.false_eq_true, if_false]
         by_cases hb0 : rq.acrh = []
         · simp only [hb0, push, List.isEmpty_nil, Bool.not_true, Bool.false_eq_true, if_false, List.length_nil, gt_iff_lt, Nat.lt_irrefl, decide_false, Bool.false_and, Option.map_some, List.append_assoc, List.cons_append, List.nil_append]
@@ -224,26 +248,23 @@ theorem doPreflight_tie' (X : ImpGen.Ext) (hitoa : X.strconv_Itoa = Cors.itoa) (
             Cors.isValidAccessControlRequestHeader X.strings_ToLower (Str.trim ' ' p) ah) = true
           all_goals simp only [hb2, push, Bool.not_true, Bool.false_eq_true, if_false, Option.map_some, List.append_assoc, List.cons_append, List.nil_append, List.append_nil, Bool.not_eq_true, Bool.not_false, if_true]
       · simp only [hb1, Bool.not_false, if_true, Option.map_some, List.append_nil]
-  · have h1 : am.isEmpty = false := by simpa using hm
-    have h2 : ¬ am.length = 0 := by simpa using hm
-    simp only [h1, h2, Bool.false_eq_true, if_false, Option.map_some]
-    by_cases hb1 : Cors.isValidAccessControlRequestMethod rq.acrm am = true
-    · simp only [hb1, Bool.not_true, Bool.false_eq_true, if_false]
-      by_cases hb0 : rq.acrh = []
-      · simp only [hb0, push, List.isEmpty_nil, Bool.not_true, Bool.false_eq_true, if_false, List.length_nil, gt_iff_lt, Nat.lt_irrefl, decide_false, Bool.false_and, Option.map_some, List.append_assoc, List.cons_append, List.nil_append]
-      · have h3 : rq.acrh.isEmpty = false := by simpa using hb0
-        have h4 : rq.acrh.length > 0 := List.length_pos_iff.mpr hb0
-        simp only [h3, h4, Bool.not_false, if_true, decide_true, Bool.true_and]
-        by_cases hb2 : ((Str.split ',' rq.acrh).all fun p =>
-          Cors.isValidAccessControlRequestHeader X.strings_ToLower (Str.trim ' ' p) ah) = true
-        all_goals simp only [hb2, push, Bool.not_true, Bool.false_eq_true, if_false, Option.map_some, List.append_assoc, List.cons_append, List.nil_append, List.append_nil, Bool.not_eq_true, Bool.not_false, if_true]
-    · simp only [hb1, Bool.not_false, if_true, Option.map_some, List.append_nil]
 
-theorem filter_tie' (X : ImpGen.Ext) (hitoa : X.strconv_Itoa = Cors.itoa) (E : ReEnv)
+theorem doPreflight_tie' (X : ImpGen.Ext) (hitoa : X.strconv_Itoa = Cors.itoa) (E : ReEnv)
     (mk : RouteDecl → Option ImpGen.GoPathExpression → ImpGen.GoRoute)
     (hmk : ∀ rt pe, (mk rt pe).Method = rt.method ∧ (mk rt pe).pathExpr = pe)
     (c : ImpGen.GoCrossOriginResourceSharing) (tbl : Config)
     (hc : c.Container = some { webServices := tbl.services.map (fun ws => some (genWS E mk ws)) })
+    (hr : HttpRequest) (rq : Cors.CorsReq) (hreq : reqOf hr = rq) (resp : RespLog) :
+    ImpGen.CrossOriginResourceSharing_doPreflightRequest X (some c) (some { Request := hr }) resp
+      = (Cors.doPreflightRequest X.strings_ToLower E (cfgOf c) tbl rq).map
+          (fun r => (some { c with AllowedMethods := r.1.allowedMethods }, resp ++ r.2)) :=
+  doPreflight_tie_gen X hitoa E mk hmk c tbl (Or.inl hc) hr rq hreq resp
+
+theorem filter_tie_gen (X : ImpGen.Ext) (hitoa : X.strconv_Itoa = Cors.itoa) (E : ReEnv)
+    (mk : RouteDecl → Option ImpGen.GoPathExpression → ImpGen.GoRoute)
+    (hmk : ∀ rt pe, (mk rt pe).Method = rt.method ∧ (mk rt pe).pathExpr = pe)
+    (c : ImpGen.GoCrossOriginResourceSharing) (tbl : Config)
+    (hc : OnContainer X c { webServices := tbl.services.map (fun ws => some (genWS E mk ws)) })
     (hr : HttpRequest) (rq : Cors.CorsReq) (hreq : reqOf hr = rq) (resp : RespLog) (chain : ChainLog) :
     ImpGen.CrossOriginResourceSharing_Filter X c (some { Request := hr }) resp chain
       = (Cors.corsOut X.strings_ToLower E (cfgOf c) tbl rq).map
@@ -253,7 +274,7 @@ theorem filter_tie' (X : ImpGen.Ext) (hitoa : X.strconv_Itoa = Cors.itoa) (E : R
   have h4 : hr.method = rq.method := congrArg Cors.CorsReq.method hreq
   unfold ImpGen.CrossOriginResourceSharing_Filter
   simp only [Option.pure_def, deref, Option.bind_eq_bind, Option.bind_some, isOriginAllowed_tie,
-    doActualRequest_tie X hitoa, doPreflight_tie' X hitoa E mk hmk c tbl hc hr rq hreq,
+    doActualRequest_tie X hitoa, doPreflight_tie_gen X hitoa E mk hmk c tbl hc hr rq hreq,
     T5.len_beq_zero, h1, h2, h4, hreq]
   unfold Cors.corsOut
   rw [show Cors.sOPTIONS = "OPTIONS".toList from rfl, show "".toList = ([] : List Char) from rfl]
@@ -283,6 +304,17 @@ theorem filter_tie' (X : ImpGen.Ext) (hitoa : X.strconv_Itoa = Cors.itoa) (E : R
       · have hm1 : (rq.method != "OPTIONS".toList) = true := by simpa using hm
         simp only [hm1, hm, ne_eq, not_false_eq_true, if_true, Option.map_some, push]
     · simp only [ha, Bool.not_false, if_true, Option.map_some, List.append_nil, push]
+
+theorem filter_tie' (X : ImpGen.Ext) (hitoa : X.strconv_Itoa = Cors.itoa) (E : ReEnv)
+    (mk : RouteDecl → Option ImpGen.GoPathExpression → ImpGen.GoRoute)
+    (hmk : ∀ rt pe, (mk rt pe).Method = rt.method ∧ (mk rt pe).pathExpr = pe)
+    (c : ImpGen.GoCrossOriginResourceSharing) (tbl : Config)
+    (hc : c.Container = some { webServices := tbl.services.map (fun ws => some (genWS E mk ws)) })
+    (hr : HttpRequest) (rq : Cors.CorsReq) (hreq : reqOf hr = rq) (resp : RespLog) (chain : ChainLog) :
+    ImpGen.CrossOriginResourceSharing_Filter X c (some { Request := hr }) resp chain
+      = (Cors.corsOut X.strings_ToLower E (cfgOf c) tbl rq).map
+          (fun o => (resp ++ o.added, if o.passOn then chain ++ [resp ++ o.added] else chain)) :=
+  filter_tie_gen X hitoa E mk hmk c tbl (Or.inl hc) hr rq hreq resp chain
 
 /-- a header function made of three distinct keys returns what it was made of -/
 theorem hdr3 (k1 k2 k3 a b c : Str) (h21 : k2 ≠ k1) (h31 : k3 ≠ k1) (h32 : k3 ≠ k2) :
